@@ -9,13 +9,18 @@ import OpcuaModel.Model.SrvRobustLemmas
   `Srv.dispatch` models the single dispatcher that writes responses without a
   deadline.
 
-  On the unchanged code the property is FALSE.  The crashing request shapes of
-  the model are characterised exactly (C29_crash_iff: crash ⇔ ¬ safe), every one
-  of them has a finding signature (C29_sig_cover) and a machine-checked
-  counterexample (C29_finding_*); the property is proved on the complement
-  (C29_nopanic_partial).  The hang caused by one client that does not read its
-  responses is C29_finding_nonreading_hang; with reading clients everybody is
-  served (C29_readers_served).
+  Handlers: the crashing request shapes of the model are characterised exactly
+  (C29_crash_iff: crash ⇔ ¬ safe, with `safe` reading the regenerated source
+  facts).  All handler-level crash sites found on the original code have been
+  repaired; with the regenerated facts of the current tree the property holds
+  at FULL STRENGTH for the handlers: in every well-formed state — the empty
+  server is one and every request keeps it so — no request shape with any token
+  makes the process exit (C29_wf_invariant, C29_nopanic, C29_nopanic_sequences);
+  the C29_repaired_* lemmas restate the former counterexamples.  A reverted
+  repair flips a fact and breaks these proofs.
+  Hang: still FALSE — one client that does not read its responses blocks the
+  single dispatcher for everybody (C29_finding_nonreading_hang); with reading
+  clients everybody is served (C29_readers_served).
 -/
 namespace Opcua.Props.C29
 open Opcua Opcua.Srv Opcua.Gen.SrvRobust
@@ -29,7 +34,9 @@ theorem C29_facts :
     Gen.SrvSession.subIdByLen = false ∧ Gen.SrvSession.setModeUnknownContinues = true ∧
     Gen.SrvSession.setModeMismatchContinues = true ∧ Gen.SrvSession.delItemsUnknownContinues = true ∧
     Gen.SrvSession.delItemsMismatchContinues = true ∧
-    Gen.SrvSession.newSessionSignatureChecked = false ∧ Gen.SrvSession.verifySessionSignatureChecked = true ∧
+    Gen.SrvSession.newSessionSignatureChecked = true ∧ Gen.SrvSession.verifySessionSignatureChecked = true ∧
+    Gen.SrvSession.findServersChecksEndpoints = true ∧ Gen.SrvSession.dataTypeAssertionChecked = true ∧
+    Gen.SrvSession.publishingIntervalRevised = true ∧
     dispatcherInline = true ∧ responseWriteDeadline = false ∧ recoverers = [] ∧ refTypeDeleteLoop = false ∧
     signedChunkLengthChecked = true := by decide
 
@@ -133,24 +140,42 @@ theorem C29_sig_cover (st : St) (t : Tok) (r : Req) (h : (step st t r).2.isCrash
 def st2 : St :=
   { sessions := [⟨1, true, 0, true⟩, ⟨2, true, 0, true⟩], subs := [⟨1, some 1⟩, ⟨2, some 2⟩], items := [⟨1, 1⟩], nextItem := 1, lastSub := 2, value := 5 }
 
-theorem C29_finding_findservers :
-    step { st2 with endpointsEmpty := true } 0 .findServers = ({ st2 with endpointsEmpty := true }, .crash "DiscoveryService.FindServers") ∧
-    sig29 st2 0 .findServers = "C29.findservers-no-endpoints" := by decide
+/-- repaired (was finding C29.findservers-no-endpoints): FindServers on a server without endpoints
+    answers (with an empty server list) instead of indexing an empty slice. -/
+theorem C29_repaired_findservers (st : St) (t : Tok) : step st t .findServers = (st, .ok "") := by
+  have h : Gen.SrvSession.findServersChecksEndpoints = true := by decide
+  simp [step, Req.name, handlerOf_findServers, body, h]
 
-theorem C29_finding_createsession_nonrsa :
-    (step st2 0 (.createSession 3 true .nonRsa)).2 = .crash "SecureChannel.NewSessionSignature" ∧
+/-- repaired (was findings C29.createsession-nonrsa-certificate / C29.activatesession-nonrsa-certificate):
+    a client certificate without RSA key is refused with a fault on signed channels, by CreateSession
+    (BadCertificateInvalid) and by ActivateSession (BadSecurityChecksFailed). -/
+theorem C29_repaired_nonrsa_certificate :
+    (step st2 0 (.createSession 3 true .nonRsa)).2 = .fault "BadCertificateInvalid" ∧
+    (step st2 0 (.createSession 3 true .unparsable)).2 = .fault "BadInternalError" ∧
     (step st2 0 (.createSession 3 false .nonRsa)).2 = .ok "" ∧
-    -- ActivateSession of such a session over a signed channel is refused since VerifySessionSignature
-    -- checks the key type (it used to be finding C29.activatesession-nonrsa-certificate)
     (step { st2 with sessions := [⟨3, false, 0, false⟩] } 3 (.activateSession true true)).2 = .fault "BadSecurityChecksFailed" := by
   decide
 
-/-- a publishing interval of 0 ms, 0.5 ms, NaN (→ minimum int64) or anything whose nanosecond
-    count wraps to ≤ 0 kills the process from the subscription goroutine, with a valid session -/
-theorem C29_finding_createsubscription_interval :
+/-- repaired (was finding C29.createsubscription-nonpositive-interval): the raw arithmetic still says
+    that 0 ms, NaN (→ minimum int64) or an overflowing value would hand `time.NewTicker` a non-positive
+    duration, but CreateSubscription now revises the interval first (regenerated fact
+    `publishingIntervalRevised`): no interval class kills the subscription goroutine. -/
+theorem C29_repaired_interval :
     intervalOf 0 = .subMs ∧ intervalOf (-9223372036854775808) = .subMs ∧ intervalOf 9223372036855 = .subMs ∧
-    (step st2 1 (.createSubscription .subMs)).2 = .crash "Subscription.run" ∧
-    sig29 st2 1 (.createSubscription .subMs) = "C29.createsubscription-nonpositive-interval" := by decide
+    Gen.SrvSession.publishingIntervalRevised = true ∧
+    (step st2 1 (.createSubscription .subMs)).2 = .ok "" ∧
+    (step st2 1 (.createSubscription .small)).2 = .ok "" := by decide
+
+/-- the revised interval is always one the ticker accepts -/
+theorem C29_revised_interval_ok (ms : Int) : intervalOf (reviseMs ms) ≠ .subMs := by
+  apply C29_interval_ok <;> unfold reviseMs <;> (repeat' split) <;> omega
+
+/-- with a session, CreateSubscription never crashes, whatever interval is requested -/
+theorem C29_createsubscription_safe (st : St) (t : Tok) (iv : Interval) (h : (findSession st t).isSome = true) :
+    (step st t (.createSubscription iv)).2.isCrash = false := by
+  rw [C29_crash_iff]
+  have hr : Gen.SrvSession.publishingIntervalRevised = true := by decide
+  cases iv <;> simp [safe, safeBody, effectiveInterval, sessionKnown, h, hr]
 
 /-! ### repaired: the nil-session call sites (were findings C29.createsubscription-nil-session-tick,
     C29.deletesubscriptions-nil-session, C29.createmonitoreditems-nil-session,
@@ -251,19 +276,224 @@ theorem C29_browse_no_loop (rt : Nat) (inc other : Bool) : browseClsOf rt inc ot
   have h : refTypeDeleteLoop = false := by decide
   simp [browseClsOf, h]
 
-/-- any client may overwrite the DataType attribute of a node with a value of another type; the next
-    Browse that lists the node as a target dies in an unchecked type assertion -/
-theorem C29_finding_browse_datatype :
+/-- repaired (was finding C29.browse-datatype-type-assertion): any client may still overwrite the
+    DataType attribute of a node with a value of another type (a C31 matter), but Browse treats such a
+    value like a missing attribute instead of asserting its type. -/
+theorem C29_repaired_browse_datatype :
     step st2 0 (.writeAttr "DataType" .wrongType) = ({ st2 with dataTypeAttr := .wrongType }, .ok "Good") ∧
-    (step { st2 with dataTypeAttr := .wrongType } 0 (.browse .plain true)).2 = .crash "Node.DataType" ∧
+    (step { st2 with dataTypeAttr := .wrongType } 0 (.browse .plain true)).2 = .ok "Good" ∧
     (step { st2 with dataTypeAttr := .noValue } 0 (.browse .plain true)).2 = .ok "Good" := by decide
 
-/-- the property at full strength does not hold for the handlers as they are -/
-theorem C29_nopanic_false : ¬ ∀ st t r, (step st t r).2.isCrash = false := by
-  intro h
-  have := h st2 0 (.createSession 3 true .nonRsa)
-  rw [C29_finding_createsession_nonrsa.1] at this
-  exact absurd this (by decide)
+/-! ### full strength for the handlers: with the repairs in place no request shape of the model
+    crashes the server, in any state the services can reach -/
+
+/-- the tables stay well-formed (every subscription owned, every item's subscription present) -/
+theorem C29_wf_invariant (st : St) (t : Tok) (r : Req) (h : wf st = true) : wf (step st t r).1 = true := by
+  unfold wf at *
+  rw [Bool.and_eq_true] at *
+  refine ⟨C29_owners_invariant st t r h.1, ?_⟩
+  obtain ⟨ho, hi⟩ := h
+  cases hp : preempted st t r with
+  | true =>
+    have : (step st t r).1 = st := by
+      unfold preempted at hp
+      unfold step
+      cases hh : handlerOf r.name with
+      | none => rfl
+      | some x =>
+        simp only [hh] at hp
+        by_cases hu : x.unsupported = true
+        · simp [hu]
+        · simp only [hu, Bool.false_or, Bool.false_eq_true, if_false] at hp ⊢
+          simp [hp]
+    rw [this]; exact hi
+  | false =>
+    rw [step_not_preempted st t r hp]
+    unfold itemsHaveSubs at *
+    have hex : ∀ it ∈ st.items, ∃ s ∈ st.subs, s.id = it.sub := fun it hit =>
+      (findSub_isSome_iff st it.sub).mp (List.all_eq_true.mp hi it hit)
+    cases r with
+    | createSubscription iv =>
+      have key : ∀ (sb : Sub) (l : Nat), (st.items.all fun it => (findSub { st with subs := putSub st.subs sb, lastSub := l } it.sub).isSome) = true := by
+        intro sb l
+        apply List.all_eq_true.mpr
+        intro it hit
+        exact (findSub_isSome_iff _ it.sub).mpr (putSub_exists st.subs sb it.sub (hex it hit))
+      cases iv <;> simp only [body] <;> (repeat' split) <;> exact key _ _
+    | deleteSubscriptions ids =>
+      simp only [body]
+      split
+      · exact hi
+      · rename_i codes dels _
+        apply List.all_eq_true.mpr
+        intro it hit
+        rw [List.mem_filter] at hit
+        obtain ⟨s, hs, hx⟩ := hex it hit.1
+        refine (findSub_isSome_iff _ it.sub).mpr ⟨s, ?_, hx⟩
+        show s ∈ st.subs.filter _
+        rw [List.mem_filter]
+        exact ⟨hs, by rw [hx]; exact hit.2⟩
+    | createMonitoredItems sub n =>
+      simp only [body]
+      split
+      · exact hi
+      · rename_i sb hsb
+        (repeat' split) <;> try exact hi
+        apply List.all_eq_true.mpr
+        intro it hit
+        rw [List.mem_append] at hit
+        rcases hit with hit | hit
+        · exact List.all_eq_true.mp hi it hit
+        · rw [newItems_sub _ _ _ it hit]
+          show (findSub st sub).isSome = true
+          rw [hsb]; rfl
+    | deleteMonitoredItems ids =>
+      simp only [body]
+      split
+      · exact hi
+      · apply List.all_eq_true.mpr
+        intro it hit
+        exact List.all_eq_true.mp hi it (List.mem_filter.mp hit).1
+    | setMonitoringMode ids => simp only [body]; split <;> exact hi
+    | findServers => simp only [body]; split <;> exact hi
+    | getEndpoints => exact hi
+    | createSession k s c => cases s <;> cases c <;> simp only [body] <;> (repeat' split) <;> exact hi
+    | activateSession s ok => simp only [body]; (repeat' split) <;> exact hi
+    | closeSession => exact hi
+    | read => simp only [body]; split <;> exact hi
+    | write v => simp only [body]; split <;> exact hi
+    | writeAttr w a => simp only [body]; (repeat' split) <;> exact hi
+    | browse c b => simp only [body]; (repeat' split) <;> exact hi
+    | publish => simp only [body]; split <;> exact hi
+    | other n => exact hi
+
+/-- C29 for the handlers at full strength: in every well-formed state — in particular in every state
+    reachable from the freshly started server — no request of any modelled shape, with any token,
+    makes the server process exit. -/
+theorem C29_nopanic (st : St) (t : Tok) (r : Req) (hw : wf st = true)
+    (hr : ∀ b, r ≠ .browse .loopPanics b) :   -- no Browse has this class any more: C29_browse_no_loop
+    (step st t r).2.isCrash = false := by
+  rw [C29_crash_iff]
+  unfold safe
+  cases hp : preempted st t r with
+  | true => rfl
+  | false =>
+    simp only [Bool.false_or, Bool.not_eq_false']
+    unfold wf at hw
+    rw [Bool.and_eq_true] at hw
+    obtain ⟨ho, hi⟩ := hw
+    have f1 : Gen.SrvSession.findServersChecksEndpoints = true := by decide
+    have f2 : Gen.SrvSession.newSessionSignatureChecked = true := by decide
+    have f3 : Gen.SrvSession.verifySessionSignatureChecked = true := by decide
+    have f4 : Gen.SrvSession.dataTypeAssertionChecked = true := by decide
+    have f5 : Gen.SrvSession.publishingIntervalRevised = true := by decide
+    have f6 : Gen.SrvSession.setModeUnknownContinues = true := by decide
+    have f7 : Gen.SrvSession.delItemsUnknownContinues = true := by decide
+    have f8 : refTypeDeleteLoop = false := by decide
+    -- a request of a nil-checked handler that was not pre-empted has its session in the table
+    have known : ∀ x, handlerOf r.name = some x → x.unsupported = false → x.lookup = "session" → x.nilChecked = true →
+        sessionKnown st t = true := by
+      intro x hx hu hl hn
+      unfold preempted at hp
+      simp only [hx, hu, hl, hn, Bool.false_or, beq_self_eq_true, Bool.true_and] at hp
+      unfold sessionKnown
+      cases hf : findSession st t <;> simp [hf] at hp ⊢
+    have itemok : ∀ id it, findItem st id = some it → itemOk st id = true := by
+      intro id it hit
+      unfold itemOk
+      rw [hit]
+      have hs := List.all_eq_true.mp hi it (findItem_mem st id it hit)
+      cases hsub : findSub st it.sub with
+      | none => simp [hsub] at hs
+      | some sb => exact subOwned_of_wf st ho it.sub sb hsub
+    cases r with
+    | findServers => simp [safeBody, f1]
+    | getEndpoints => rfl
+    | createSession k s c => simp [safeBody, f2]
+    | activateSession s ok => simp only [safeBody]; split <;> simp [f3]
+    | closeSession => rfl
+    | read => rfl
+    | write v => rfl
+    | writeAttr w a => rfl
+    | browse c b =>
+      cases c with
+      | plain => simp [safeBody, f4]
+      | loopPanics => exact absurd rfl (hr b)
+    | createSubscription iv =>
+      have hk := known _ handlerOf_createSubscription rfl rfl rfl
+      cases iv <;> simp [safeBody, effectiveInterval, f5, hk]
+    | publish => rfl
+    | deleteSubscriptions ids =>
+      have hk := known _ handlerOf_deleteSubscriptions rfl rfl rfl
+      simp only [safeBody, hk, Bool.true_and]
+      apply List.all_eq_true.mpr
+      intro id _
+      cases hs : findSub st id with
+      | none => rfl
+      | some sb => simp [subOwned_of_wf st ho id sb hs]
+    | createMonitoredItems sub n =>
+      have hk := known _ handlerOf_createMonitoredItems rfl rfl rfl
+      simp only [safeBody, hk, Bool.true_and]
+      cases hs : findSub st sub with
+      | none => rfl
+      | some sb => simp [subOwned_of_wf st ho sub sb hs]
+    | setMonitoringMode ids =>
+      have hk := known _ handlerOf_setMonitoringMode rfl rfl rfl
+      simp only [safeBody, itemSafe, f6, hk, Bool.true_and]
+      apply List.all_eq_true.mpr
+      intro id _
+      cases hit : findItem st id with
+      | none => rfl
+      | some it => exact itemok id it hit
+    | deleteMonitoredItems ids =>
+      have hk := known _ handlerOf_deleteMonitoredItems rfl rfl rfl
+      simp only [safeBody, itemSafe, f7, hk, Bool.true_and]
+      apply List.all_eq_true.mpr
+      intro id _
+      cases hit : findItem st id with
+      | none => rfl
+      | some it => exact itemok id it hit
+    | other n => rfl
+
+/-- … hence no request sequence does, starting from a freshly started server (empty tables). -/
+theorem C29_nopanic_sequences (st : St) (l : List (Tok × Req)) (hw : wf st = true)
+    (hr : ∀ x ∈ l, ∀ b, x.2 ≠ .browse .loopPanics b) :
+    (runSteps st l).2.isCrash = false := by
+  induction l generalizing st with
+  | nil => rfl
+  | cons x rest ih =>
+    obtain ⟨t, r⟩ := x
+    unfold runSteps
+    have hc := C29_nopanic st t r hw (hr (t, r) (by simp))
+    have ih := fun s hs => ih s hs (fun y hy => hr y (by simp [hy]))
+    have hwf := C29_wf_invariant st t r hw
+    cases hs : step st t r with
+    | mk st' o =>
+      rw [hs] at hc hwf
+      cases o with
+      | crash s => simp [Out.isCrash] at hc
+      | ok d =>
+        simp only []
+        split
+        · rfl
+        · exact ih st' hwf
+      | sessionErr =>
+        simp only []
+        split
+        · rfl
+        · exact ih st' hwf
+      | fault c =>
+        simp only []
+        split
+        · rfl
+        · exact ih st' hwf
+      | noResponse =>
+        simp only []
+        split
+        · rfl
+        · exact ih st' hwf
+
+theorem C29_initial_wf : wf {} = true := by decide
 
 /-! ### hang: one client that does not read -/
 
@@ -303,6 +533,6 @@ theorem C29_signed_chunk_safe (chunkLen sigLen : Nat) : signedChunkOutcome chunk
 /-! ### non-vacuity -/
 
 example : safe st2 1 (.deleteSubscriptions [1, 7]) = true ∧ safe st2 0 .read = true ∧ safe st2 0 (.setMonitoringMode [1]) = true := by decide
-example : (runSteps st2 [(0, .read), (1, .createSubscription .subMs), (0, .read)]).2 = .crash "Subscription.run" := by decide
+example : wf st2 = true ∧ (runSteps st2 [(0, .read), (0, .createSession 3 true .nonRsa), (1, .setMonitoringMode [9, 1])]).2 = .ok "BadMonitoredItemIDInvalid,Good" := by decide
 
 end Opcua.Props.C29
